@@ -273,7 +273,9 @@ func pipelines(corpus string) []pipeline {
 	mkSuse := func(uri, comp string) (ovalU, error) {
 		return suse.NewUpdater(&claircore.Distribution{Name: "SUSE Linux Enterprise Server", Version: "15", DID: "sles", VersionID: "15", PrettyName: "SUSE Linux Enterprise Server 15"}, suse.WithURL(uri, comp))
 	}
-	mkPhoton := func(uri, comp string) (ovalU, error) { return photon.NewUpdater(photon.Photon3, photon.WithURL(uri, comp)) }
+	mkPhoton := func(uri, comp string) (ovalU, error) {
+		return photon.NewUpdater(photon.Photon3, photon.WithURL(uri, comp))
+	}
 	ps = append(ps, ovalPipe("oracle", "bzip2", flavorOracle, mkOracle, loadCorpus(corpus, ".oracle.xml.bz2")))
 	ps = append(ps, ovalPipe("suse", "gzip", flavorSuse, mkSuse, nil))
 	ps = append(ps, ovalPipe("suse", "zstd", flavorSuse, mkSuse, nil))
